@@ -329,4 +329,196 @@ def step (s : Heap.IOState) : List String → Heap.IOState × String
     | none => (s, "bad-op")
   | _ => (s, "bad-op")
 
+/-! ### the checkpoint HELPERS on module trees (`HeapCkpt.Mod`, additive; C07 extension)
+
+  `agilerl/utils/algo_utils.py`: `get_detached_tensors`, `load_detached_tensors`, `remove_compile_prefix`,
+  `key_in_nested_dict`, `recursive_check_module_attrs` — modelled as operations on a torch module seen through the
+  calls the helpers make:
+
+  * `module.named_modules()` — the module tree as the ordered list `dotted prefix ↦ sub-module` (root first, prefix
+    `""`): recursion into sub-modules at every nesting depth IS the loop over this list;
+  * per sub-module the tensors `state_dict()` lists (`_parameters` + persistent `_buffers`, by name) and
+    `vars(sub).items()` (the instance `__dict__`, by name: a tensor or something else) — a tensor installed by
+    `TensorDict.to_module` in place of a parameter lives in `vars` and in no state dict;
+  * a tensor = (shape, contents id): contents are only moved, never computed with.
+  A `torch.compile`d module (`OptimizedModule`) is the pair (`true`, tree of `_orig_mod`): its own
+  `named_modules()` / `state_dict()` list everything under the prefix `_orig_mod`.
+
+  `Gen/CkptHelpGen.lean` is generated from the source text of the helpers, `Proofs/CkptHelpGenEq.lean` proves the
+  generated functions equal to the definitions of this section.  Strings are `List Char` (Python `str`), the Python
+  `str` / `dict` / torch primitives used are the `py*` functions below (non-recursive, over core `List` functions).
+  The driver protocol does not use this section. -/
+namespace Mod
+
+abbrev Name := List Char
+/-- (shape, contents id) -/
+abbrev Tensor := List Nat × Nat
+/-- a value found in `vars(sub)` / in a saved dict: a tensor, or anything else -/
+abbrev Val := Option Tensor
+/-- (what `state_dict()` lists for this sub-module, `vars(sub).items()`) -/
+abbrev Sub := List (Name × Tensor) × List (Name × Val)
+/-- `named_modules()` of an uncompiled module -/
+abbrev Tree := List (Name × Sub)
+/-- (`isinstance(·, OptimizedModule)`, tree of the underlying module) -/
+abbrev Obj := Bool × Tree
+abbrev Dict (α : Type) := List (Name × α)
+
+/-- the class name of the exception raised -/
+abbrev Exn := String
+
+/-! #### Python / torch primitives -/
+
+/-- `s.startswith(p)` -/
+def pyStartsWith (s p : Name) : Bool := p.isPrefixOf s
+/-- truth value of a `str` -/
+def pyTruthy (s : Name) : Bool := !s.isEmpty
+/-- `s.rpartition(c)` for a one-character separator: (before, sep, after) around the LAST occurrence, `("", "", s)`
+    when there is none -/
+def pyRpartition (s : Name) (c : Char) : Name × Name × Name :=
+  match s.reverse.dropWhile (· != c) with
+  | [] => ([], [], s)
+  | _ :: before => (before.reverse, [c], (s.reverse.takeWhile (· != c)).reverse)
+/-- `s.split(c, 1)` for a one-character separator -/
+def pySplit1 (s : Name) (c : Char) : List Name :=
+  match s.dropWhile (· != c) with
+  | [] => [s]
+  | _ :: after => [s.takeWhile (· != c), after]
+/-- `d[k] = v` on an insertion-ordered dict -/
+def pyDictSet {α} (d : Dict α) (k : Name) (v : α) : Dict α :=
+  if d.any (·.1 == k) then d.map (fun e => if e.1 == k then (k, v) else e) else d ++ [(k, v)]
+/-- `OrderedDict(pairs)` / `dict(pairs)` -/
+def pyDictOf {α} (pairs : List (Name × α)) : Dict α := pairs.foldl (fun d e => pyDictSet d e.1 e.2) []
+def pyIndex {α} (l : List α) (i : Nat) : Except Exn α :=
+  match l[i]? with
+  | some x => .ok x
+  | none => .error "IndexError"
+def pyOptDictTruthy {α} (d : Option (Dict α)) : Bool := match d with | none => false | some d => !d.isEmpty
+def pyIsTensor (v : Val) : Bool := v.isSome
+/-- `v.shape` (compared only) -/
+def pyShape (v : Val) : Option (List Nat) := v.map (·.1)
+
+/-- `"_orig_mod"` -/
+def origMod : Name := ['_','o','r','i','g','_','m','o','d']
+/-- the prefix of a sub-module of `_orig_mod` as the compiled wrapper lists it -/
+def origPrefix (p : Name) : Name :=
+  if p.isEmpty then ['_','o','r','i','g','_','m','o','d'] else ['_','o','r','i','g','_','m','o','d'] ++ '.' :: p
+/-- `module.named_modules()` -/
+def pyNamedModules (o : Obj) : Tree :=
+  if o.1 then ([], ([], [])) :: o.2.map (fun ps => (origPrefix ps.1, ps.2)) else o.2
+/-- `module._orig_mod` -/
+def pyOrigMod (o : Obj) : Obj := (false, o.2)
+/-- `f"{p}.{n}" if p else n` — how torch keys a state dict -/
+def dotKey (p n : Name) : Name := if p.isEmpty then n else p ++ '.' :: n
+/-- `module.state_dict()` (torch): every listed tensor of every sub-module under its dotted name -/
+def pyStateDict (o : Obj) : Dict Tensor :=
+  (pyNamedModules o).flatMap fun ps => ps.2.1.map fun nt => (dotKey ps.1 nt.1, nt.2)
+/-- `module.get_submodule(prefix)` (AttributeError when there is none) -/
+def pyGetSubmodule (o : Obj) (p : Name) : Except Exn Sub :=
+  match (pyNamedModules o).lookup p with
+  | some s => .ok s
+  | none => .error "AttributeError"
+/-- `getattr(sub, name, None)`: the instance `__dict__` first, then `nn.Module.__getattr__` (parameters / buffers);
+    anything that is not a tensor is `none` -/
+def pyGetattr (s : Sub) (n : Name) : Val :=
+  match s.2.lookup n with
+  | some v => v
+  | none => s.1.lookup n
+/-- the tensor `getattr(sub, n)` returns takes the contents of `v` (in place: `current.copy_(v)`) -/
+def subCopy (s : Sub) (n : Name) (v : Tensor) : Sub :=
+  match s.2.lookup n with
+  | some _ => (s.1, s.2.map fun e => if e.1 == n then (e.1, e.2.map fun _ => v) else e)
+  | none => (s.1.map (fun e => if e.1 == n then (e.1, v) else e), s.2)
+def treeCopy (t : Tree) (p n : Name) (v : Tensor) : Tree :=
+  t.map fun ps => if ps.1 == p then (ps.1, subCopy ps.2 n v) else ps
+/-- `current.copy_(value)` where `current = getattr(module.get_submodule(p), n, None)` -/
+def pyCopyInto (o : Obj) (p n : Name) (v : Val) : Obj :=
+  match v with
+  | none => o
+  | some t =>
+    if o.1 then
+      (if p == ['_','o','r','i','g','_','m','o','d'] then (true, treeCopy o.2 [] n t)
+       else if pyStartsWith p ['_','o','r','i','g','_','m','o','d','.'] then (true, treeCopy o.2 (p.drop 10) n t)
+       else o)
+    else (false, treeCopy o.2 p n t)
+
+/-! #### the helpers (in the shape of the source) -/
+
+/-- `get_detached_tensors(module)`: every PUBLIC tensor attribute in `vars()` of every sub-module, under its dotted
+    name -/
+def getDetached (module : Obj) : Dict Val :=
+  let module := if module.1 then pyOrigMod module else module
+  (pyNamedModules module).foldl (fun detached ps =>
+    ps.2.2.foldl (fun detached nv =>
+      if pyIsTensor nv.2 && !(pyStartsWith nv.1 ['_']) then
+        pyDictSet detached (if pyTruthy ps.1 then ps.1 ++ ['.'] ++ nv.1 else nv.1) nv.2
+      else detached) detached) []
+
+/-- one iteration of the loop of `load_detached_tensors` -/
+def loadDetachedStep (module : Obj) (kv : Name × Val) : Except Exn Obj :=
+  let t := pyRpartition kv.1 '.'
+  match pyGetSubmodule module t.1 with
+  | .error e => .error e
+  | .ok sub =>
+    let current := pyGetattr sub t.2.2
+    if pyIsTensor current && pyShape current == pyShape kv.2 then .ok (pyCopyInto module t.1 t.2.2 kv.2)
+    else .ok module
+
+/-- `load_detached_tensors(module, detached)`: the (underlying) module afterwards; nothing happens for `None` /
+    `{}`; the first iteration that raises ends the call -/
+def loadDetached (module : Obj) (detached : Option (Dict Val)) : Except Exn Obj :=
+  if !(pyOptDictTruthy detached) then .ok module
+  else List.foldlM (m := Except Exn) loadDetachedStep (if module.1 then pyOrigMod module else module) (detached.getD [])
+
+/-- `remove_compile_prefix(state_dict)` -/
+def removeCompilePrefix {α : Type} (sd : Dict α) : Except Exn (Dict α) :=
+  match List.mapM (m := Except Exn) (fun kv =>
+      if pyStartsWith kv.1 ['_','o','r','i','g','_','m','o','d'] then
+        match pyIndex (pySplit1 kv.1 '.') 1 with
+        | .error e => .error e
+        | .ok r => .ok (r, kv.2)
+      else .ok (kv.1, kv.2)) sd with
+  | .error e => .error e
+  | .ok r => .ok (pyDictOf r)
+
+/-- `module.load_state_dict(sd)` (torch, strict): every listed tensor takes the entry of its dotted name; a missing
+    / unexpected key or a size mismatch raises -/
+def pyLoadStateDict (o : Obj) (sd : Dict Tensor) : Except Exn Obj :=
+  let keys := (pyStateDict o).map (·.1)
+  if keys.all (fun k => (sd.lookup k).isSome) && sd.all (fun e => keys.contains e.1) &&
+      (pyStateDict o).all (fun e => (sd.lookup e.1).map (·.1) == some e.2.1) then
+    .ok (o.1, o.2.map fun ps =>
+      (ps.1, (ps.2.1.map fun nt =>
+        (nt.1, (sd.lookup (dotKey (if o.1 then origPrefix ps.1 else ps.1) nt.1)).getD nt.2), ps.2.2)))
+  else .error "RuntimeError"
+
+
+/-! #### what the theorems talk about -/
+
+/-- the tensor `getattr(module.get_submodule(p), n, None)` returns (`none`: no such sub-module / not a tensor) -/
+def tensorAt (t : Tree) (p n : Name) : Val :=
+  match t.lookup p with
+  | some s => pyGetattr s n
+  | none => none
+
+/-- the tensors of a module that are attributes with a PUBLIC name in `vars()` of some sub-module (at any depth), under
+    their dotted name: the specification of `get_detached_tensors` -/
+def publicEntries (t : Tree) : Dict Val :=
+  t.flatMap fun ps => ps.2.2.filterMap fun nv =>
+    if pyIsTensor nv.2 && !(pyStartsWith nv.1 ['_']) then some (dotKey ps.1 nv.1, nv.2) else none
+
+/-- the same by location ((prefix, name), tensor) -/
+def publicLocs (t : Tree) : List ((Name × Name) × Tensor) :=
+  t.flatMap fun ps => ps.2.2.filterMap fun nv =>
+    match nv.2 with
+    | some tv => if !(pyStartsWith nv.1 ['_']) then some ((ps.1, nv.1), tv) else none
+    | none => none
+
+/-- the tensors `state_dict()` lists, by location -/
+def regLocs (t : Tree) : List ((Name × Name) × Tensor) :=
+  t.flatMap fun ps => ps.2.1.map fun nt => ((ps.1, nt.1), nt.2)
+
+def entryOf (x : (Name × Name) × Tensor) : Name × Val := (dotKey x.1.1 x.1.2, some x.2)
+
+end Mod
+
 end HeapCkpt
